@@ -86,6 +86,6 @@ func init() {
 func init() {
 	Plans["C08"] = map[string][]Step{
 		"quick":    {{Tier: "redef", Size: 0, Bound: 1}, {Tier: "redef", Size: 1, Bound: 0}, {Tier: "redefptr", Bound: 0}, {Tier: "alias-C08", Size: 4}, {Tier: "redefzero", Size: 1, Bound: 0}},
-		"thorough": {{Tier: "redef", Size: 0, Bound: 1}, {Tier: "redef", Size: 1, Bound: 1}, {Tier: "redef", Size: 2, Bound: 0}, {Tier: "redefptr", Bound: 1}, {Tier: "alias-C08", Size: 5}, {Tier: "redefzero", Size: 1, Bound: 1}},
+		"thorough": {{Tier: "redef", Size: 0, Bound: 1}, {Tier: "redef", Size: 1, Bound: 1}, {Tier: "redef", Size: 2, Bound: 0}, {Tier: "redefptr", Bound: 1}, {Tier: "alias-C08", Size: 5}, {Tier: "redefzero", Size: 1, Bound: 0}},
 	}
 }
